@@ -77,7 +77,8 @@ func TestVerif_C02_NewLeaderReads(t *testing.T) {
 		}
 		dir, err := os.MkdirTemp("", "c02nl-")
 		if err != nil {
-			rt.Skip("tempdir")
+			vr.Label("inconclusive:tempdir")
+			return
 		}
 		defer os.RemoveAll(dir)
 		wd := time.AfterFunc(150*time.Second, func() {
